@@ -50,7 +50,7 @@ ODeviations == {
   "v3.fileserver_param_without_schema",      \* v3 file-server path parameter has neither schema nor content
   "v3.allow_empty_value_not_query",          \* allowEmptyValue is written for header and cookie parameters
   "yaml.leading_newline_dropped",            \* a description starting with a newline loses it in the YAML rendering
-  "server.required_cookie_resets_errors" }   \* the decoder assigns the result of r.Cookie() of a required cookie to the error it accumulates:
+  "decode.required_cookie_drops_param_errors" }   \* the decoder assigns the result of r.Cookie() of a required cookie to the error it accumulates:
                                              \* what query and header decoding found (missing required parameter, invalid value) is forgotten
 
 ---------------------------------------------------------------------------
@@ -147,7 +147,7 @@ ServedOps(ms, ops) ==
 MountsOf(d) == ExpectedMounts(d)
 \* request_elements.go.tpl: path, query, header, then cookie elements are read in this order into one `err`
 SrvParam(m, p) ==
-  IF p.in \in {"query", "header"} /\ p.required /\ ODev("server.required_cookie_resets_errors")
+  IF p.in \in {"query", "header"} /\ p.required /\ ODev("decode.required_cookie_drops_param_errors")
      /\ \E c \in RangeQ(m.params) : c.in = "cookie" /\ c.mode = "required"
   THEN [p EXCEPT !.required = FALSE] ELSE p
 SrvOp(d, s, m, r) == LET e == ExpectedOp(d, s, m, r) IN [e EXCEPT !.params = {SrvParam(m, p) : p \in @}]
@@ -338,7 +338,8 @@ XDeviations == {
                                            \* whatever the validations of the two (a defect of the whole design: seen from one exchange the
                                            \* rules applied to a body are then somebody else's)
 \* (plus the transport deviations of HTTPTransport: param.empty_string_is_absent, validate.absent_collection_length,
-\*  client.path_not_escaped, mux.double_unescape, response.header_array_joined, cookie.value_sanitized)
+\*  client.path_not_escaped, mux.double_unescape, response.header_array_joined, cookie.value_sanitized,
+\*  validate.exclusive_max_unchecked, decode.required_cookie_drops_param_errors)
 
 MalShapes == {"negu", "frac", "text"}
 Malformed(v) == v # Absent /\ v.s \in MalShapes
@@ -413,20 +414,7 @@ XInitRes ==
          /\ (v = Absent => a.mode # "required")
          /\ cfg = [pa |-> <<FixedAttr>>, ra |-> <<a>>, tagged |-> t, devs |-> Deviations] /\ rv = <<v>>
   /\ pv = <<FixedVal>> /\ xflag = "none" /\ Idle
-\* request_elements.go.tpl under server.required_cookie_resets_errors: errors found while decoding the body end the request at
-\* once; those of path, query and header elements are accumulated, and forgotten when a required cookie is read
-CookieResets == Dev("server.required_cookie_resets_errors") /\ \E i \in PIdx : cfg.pa[i].loc = "cookie" /\ cfg.pa[i].mode = "required"
-XValidateReset ==
-  /\ pc = "validate" /\ CookieResets
-  /\ LET keep == {i \in PIdx : cfg.pa[i].loc \in {"body", "cookie"}} IN
-       IF \A i \in keep : ServerValid(cfg.pa[i], delivered[i])
-       THEN pc' = "invoke" /\ UNCHANGED <<status, errname>>
-       ELSE /\ pc' = "cswitch" /\ status' = 400
-            /\ errname' \in {ServerViolation(cfg.pa[i], delivered[i]) : i \in {j \in keep : ~ServerValid(cfg.pa[j], delivered[j])}}
-  /\ UNCHANGED <<cfg, pv, rv, wire, delivered, invoked, rwire, returned, cerr>>
-XNext == (IF pc = "route" /\ \E i \in PIdx : wire[i].loc # "none" /\ Malformed(wire[i].v) THEN XTypeReject
-          ELSE IF pc = "validate" /\ CookieResets THEN XValidateReset
-          ELSE Next) /\ UNCHANGED xflag
+XNext == (IF pc = "route" /\ \E i \in PIdx : wire[i].loc # "none" /\ Malformed(wire[i].v) THEN XTypeReject ELSE Next) /\ UNCHANGED xflag
 \* with several attributes per method (simulation) the exchange is drawn attribute by attribute by HTTPTransport's Init / Pick*
 XSpec == (IF NPA = 1 /\ NRA = 1 THEN (IF Family = "req" THEN XInit ELSE XInitRes) ELSE Init /\ xflag = "none")
          /\ OInit /\ [][XNext /\ UNCHANGED ovars]_<<hvars, ovars>>
